@@ -45,6 +45,8 @@ fn gens(tier: Tier) -> Vec<Gen> {
         Gen { name: "ip-literal-hosts", count: (2 * 2 * 2 * 2 * 2 * 2) as u64, exhaustive: true, run: run_ip_literal },
         #[cfg(feature = "rustls")]
         Gen { name: "foreign-key", count: (2 * 2 * 2 * 2) as u64, exhaustive: true, run: run_foreign_key },
+        Gen { name: "caller-host-header", count: (2 * 2 * 2 * 2) as u64, exhaustive: true, run: run_caller_host },
+        Gen { name: "refusing-proxy", count: (REFUSALS.len() * 2 * 2) as u64, exhaustive: true, run: run_refusing_proxy },
         Gen { name: "validity-window", count: (7 * 2 * 2) as u64, exhaustive: true, run: run_validity_window },
         Gen { name: "sibling-roots", count: (2 * 2 * 2) as u64, exhaustive: true, run: run_sibling_roots },
         Gen { name: "pinned-leaf", count: 2 * 2 * 2 * 2 * 3, exhaustive: true, run: run_pinned },
@@ -460,6 +462,113 @@ fn run_ip_literal(ctx: &mut Ctx, _rng: &mut Rng, index: u64) {
     judge(ctx, "sibling-or-original", false, false, &out_u, saw_u, &|| descr("request created before the flags/root were set: defaults apply"));
     ctx.count("path_ip_literal_host", 1);
     ctx.nontrivial(format!("ipl{index}").as_bytes());
+}
+
+/// "the host being contacted" is the URL's host: a Host header supplied by the caller (on the
+/// request or on the session) neither lends its name to a certificate that does not cover the URL's
+/// host nor takes the URL host's certificate away
+fn run_caller_host(ctx: &mut Ctx, _rng: &mut Rng, index: u64) {
+    let mut i = index as usize;
+    let via_proxy = i % 2 == 1;
+    i /= 2;
+    let on_session = i % 2 == 1;
+    i /= 2;
+    // true: the URL host is not covered, the header names the certificate's host; false: the reverse
+    let header_names_cert = i % 2 == 0;
+    i /= 2;
+    let with_port = i % 2 == 1;
+    let (url_host, header_host) = if header_names_cert { ("other.test", "good.test") } else { ("good.test", "other.test") };
+    let header_value = if with_port { format!("{header_host}:443") } else { header_host.to_string() };
+    let url = format!("https://{url_host}/c14");
+    let expected = !header_names_cert;
+    let srv = if via_proxy { connect_proxy("good") } else { origin_server("good") };
+    let mut sess = Session::new();
+    sess.connect_timeout(std::time::Duration::from_secs(5));
+    sess.read_timeout(std::time::Duration::from_secs(5));
+    sess.add_root_certificate(tlsfix::load_cert("ca"));
+    if via_proxy {
+        sess.proxy_settings(ProxySettings::builder().https_proxy(Url::parse(&format!("http://127.0.0.1:{}", srv.port)).unwrap()).build());
+    } else {
+        set_resolver_override(url_host, Some(vec![SocketAddr::from(([127, 0, 0, 1], srv.port))]));
+        set_resolver_override(header_host, Some(vec![SocketAddr::from(([127, 0, 0, 1], srv.port))]));
+    }
+    if on_session {
+        sess.header("Host", header_value.as_str());
+    }
+    let mut rb = sess.post(&url);
+    if !on_session {
+        rb = rb.header("Host", header_value.as_str());
+    }
+    let out = outcome(rb.text("c14 body").send());
+    let saw = saw_request(&srv.finish());
+    let descr = || format!("{}: URL {url}, caller-supplied Host header {header_value:?} set on the {}; the server presents the CA-signed certificate for good.test, the CA is added as a root, no flag is set", if via_proxy { "CONNECT via loopback proxy" } else { "direct" }, if on_session { "session" } else { "request" });
+    judge(ctx, "caller-host-header", expected, true, &out, saw, &descr);
+    ctx.count("caller_host_header_cells", 1);
+    ctx.nontrivial(format!("chh{index}").as_bytes());
+    ctx.sample(|| json!({"path": "caller-host-header", "url": url, "host_header": header_value, "expected_ok": expected, "outcome": out.error}));
+}
+
+const REFUSALS: [u16; 8] = [400, 403, 404, 405, 407, 501, 502, 503];
+
+/// a proxy that refuses the CONNECT and would happily answer any other request in clear: an https
+/// exchange through it cannot succeed (there is no TLS peer to authenticate), and nothing of the
+/// request reaches the proxy outside a tunnel, on this or on any further connection
+fn run_refusing_proxy(ctx: &mut Ctx, _rng: &mut Rng, index: u64) {
+    let status = REFUSALS[index as usize % REFUSALS.len()];
+    let mut i = index as usize / REFUSALS.len();
+    let post = i % 2 == 1;
+    i /= 2;
+    let via_redirect = i % 2 == 1;
+    let srv: Server<Vec<u8>> = Server::spawn(move |mut s: TcpStream| {
+        let head = read_head(&mut s);
+        if head.starts_with(b"CONNECT ") {
+            write_all_ignore(&mut s, format!("HTTP/1.1 {status} Refused\r\nContent-Length: 0\r\n\r\n").as_bytes());
+            // whatever follows the refusal on this connection
+            let _ = s.set_read_timeout(Some(std::time::Duration::from_millis(300)));
+            let mut more = Vec::new();
+            let mut b = [0u8; 2048];
+            while let Ok(n) = std::io::Read::read(&mut s, &mut b) {
+                if n == 0 {
+                    break;
+                }
+                more.extend_from_slice(&b[..n]);
+            }
+            let mut out = b"CONNECT|".to_vec();
+            out.extend_from_slice(&more);
+            out
+        } else if via_redirect && head.starts_with(b"GET http://start.test/") {
+            write_all_ignore(&mut s, b"HTTP/1.1 307 Go\r\nLocation: https://good.test/MARKER-secret-path\r\nContent-Length: 0\r\n\r\n");
+            b"START".to_vec()
+        } else {
+            write_all_ignore(&mut s, b"HTTP/1.1 200 OK\r\nContent-Length: 2\r\n\r\nok");
+            head
+        }
+    });
+    let proxy = Url::parse(&format!("http://127.0.0.1:{}", srv.port)).unwrap();
+    let mut sess = Session::new();
+    sess.connect_timeout(std::time::Duration::from_secs(5));
+    sess.read_timeout(std::time::Duration::from_secs(5));
+    sess.add_root_certificate(tlsfix::load_cert("ca"));
+    sess.proxy_settings(ProxySettings::builder().http_proxy(proxy.clone()).https_proxy(proxy).build());
+    let url = if via_redirect { "http://start.test/begin" } else { "https://good.test/MARKER-secret-path" };
+    let res = if post && !via_redirect { sess.post(url).header("X-Secret", "MARKER-secret-header").text("MARKER-secret-body").send() } else { sess.get(url).header("X-Secret", "MARKER-secret-header").send() };
+    let out = outcome(res);
+    let seen = srv.finish();
+    let descr = || format!("https://good.test through a proxy that answers CONNECT with {status}{}: result {}; connections at the proxy: {:?}", if via_redirect { " (reached through a 307 from http://start.test)" } else { "" }, out.error, seen.iter().map(|v| crate::framework::show(&v[..v.len().min(60)])).collect::<Vec<_>>());
+    if out.ok || !out.error.starts_with("Error") {
+        ctx.violation("unauthenticated-peer-accepted:refused-tunnel", format!("an https exchange produced a response although no tunnel exists and no TLS peer was authenticated; {}", descr()));
+    }
+    for v in &seen {
+        let clear = !v.starts_with(b"CONNECT|") && !v.starts_with(b"START");
+        if clear || v.windows(7).any(|w| w == b"MARKER-") {
+            ctx.violation("https-request-sent-in-clear:refused-tunnel", format!("part of the https request reached the proxy outside a tunnel; {}", descr()));
+            break;
+        }
+    }
+    ctx.count("refusing_proxy_cells", 1);
+    ctx.count("handshakes_rejected", 0);
+    ctx.nontrivial(format!("rfp{index}").as_bytes());
+    ctx.sample(|| json!({"path": "refusing-proxy", "status": status, "via_redirect": via_redirect, "outcome": out.error}));
 }
 
 /// two sibling sessions / requests that each added a DIFFERENT root (same flags, same number of
